@@ -35,7 +35,7 @@ fn frames(mut b: &[u8]) -> (Vec<Vec<u8>>, bool) {
 }
 
 /// one canonical tag per client message
-fn tag(f: &[u8]) -> String {
+pub fn tag(f: &[u8]) -> String {
     if f.len() == 15 && f[1] == 0xe0 {
         return format!("cr:{}:{}", le32(&f[11..15]), f[8]);
     }
@@ -57,7 +57,7 @@ fn tag(f: &[u8]) -> String {
     format!("raw:{}", summ(f))
 }
 
-fn tags(written: &[u8]) -> (String, Option<u32>) {
+pub fn tags(written: &[u8]) -> (String, Option<u32>) {
     let (fs, tail) = frames(written);
     let mut v: Vec<String> = fs.iter().map(|f| tag(f)).collect();
     if tail { v.push("tls".to_string()); }
@@ -65,13 +65,14 @@ fn tags(written: &[u8]) -> (String, Option<u32>) {
     (if v.is_empty() { "-".to_string() } else { v.join(",") }, first_join)
 }
 
-struct Cfg { offered: u32, auth: bool, ram: bool, name: String, domain: String, user: String, pw: String }
+pub struct Cfg { pub offered: u32, pub auth: bool, pub ram: bool, pub name: String, pub domain: String, pub user: String, pub pw: String }
 
-fn run_connect(cfg: &Cfg, pipe: &Pipe) -> RdpResult<(u16, bool)> {
-    let link = Link::new(Stream::Raw(pipe.clone()));
+/// what Connector::connect runs, layer by layer, with a caller-chosen offered mask / authenticator
+pub fn run_layers<S: std::io::Read + std::io::Write>(cfg: &Cfg, check_certificate: bool, stream: S) -> RdpResult<(u16, bool)> {
+    let link = Link::new(Stream::Raw(stream));
     let mut ntlm = Ntlm::new(cfg.domain.clone(), cfg.user.clone(), cfg.pw.clone());
     let x = x224::Client::connect(
-        tpkt::Client::new(link), cfg.offered, false,
+        tpkt::Client::new(link), cfg.offered, check_certificate,
         if cfg.auth { Some(&mut ntlm) } else { None }, cfg.ram, false)?;
     let mut m = mcs::Client::new(x);
     m.connect(cfg.name.clone(), 800, 600, KeyboardLayout::US)?;
@@ -81,6 +82,10 @@ fn run_connect(cfg: &Cfg, pipe: &Pipe) -> RdpResult<(u16, bool)> {
         sec::connect(&mut m, &cfg.domain, &cfg.user, &cfg.pw, false)?;
     }
     Ok((m.get_user_id(), m.is_rdp_version_5_plus()))
+}
+
+fn run_connect(cfg: &Cfg, pipe: &Pipe) -> RdpResult<(u16, bool)> {
+    run_layers(cfg, false, pipe.clone())
 }
 
 /// the public entry point itself: Connector::connect (offers SSL, and HYBRID when NLA is on)
